@@ -1,6 +1,8 @@
 /* C07: init.c:initadd, one step: an arbitrary valid initializer list (sorted, disjoint bit ranges) of NOLD entries
  * plus one new initializer with a symbolic bit range: afterwards the list is valid again, contains the new entry,
- * has lost exactly the old entries whose range the new one covers, and keeps all others in order.
+ * has lost exactly the old entries whose range the new one covers and the old SCALAR entries that cover the new one (an initializer for a
+ * different member of a union replaces the earlier one), and keeps all others - containers (string/aggregate values) that a later element
+ * patches - in order.
  * Unit included: init.c. */
 #include "common.h"
 #include "init.c"
@@ -16,12 +18,16 @@ static unsigned long long ebit(struct init *i) { return i->end * 8 - i->bits.aft
 int main(void) {
 	ND_ARR(unsigned, st, NOLD + 1); ND_ARR(unsigned, sz, NOLD + 1); ND_ARR(unsigned, bf, NOLD + 1); ND_ARR(unsigned, af, NOLD + 1);
 	ND(unsigned, nold); ND(unsigned, lastpos);
-	static struct init in[NOLD + 1];
+	static struct init in[NOLD + 1]; static struct expr ex[NOLD + 1];
+	bool cont[NOLD + 1]; for (unsigned i = 0; i <= NOLD; i++) cont[i] = (CONT >> i) & 1;      /* which old entries are containers: concrete per instance (-DCONT=mask) */
+	static struct type tcont = {.kind = TYPEARRAY, .prop = 0}, tscal = {.kind = TYPELONG, .prop = PROPSCALAR | PROPINT};
 	ASSUME(nold <= NOLD);
 	for (unsigned i = 0; i <= NOLD; i++) {
 		ASSUME(sz[i] == 1 || sz[i] == 2 || sz[i] == 4 || sz[i] == 8);
-		ASSUME(st[i] < 64 && bf[i] < 64 && af[i] < 64 && bf[i] + af[i] < sz[i] * 8);
-		in[i].start = st[i]; in[i].end = st[i] + sz[i]; in[i].bits.before = bf[i]; in[i].bits.after = af[i]; in[i].expr = 0; in[i].next = 0;
+		ASSUME(st[i] < 16 && bf[i] < 64 && af[i] < 64 && bf[i] + af[i] < sz[i] * 8);
+		in[i].start = st[i]; in[i].end = st[i] + sz[i]; in[i].bits.before = bf[i]; in[i].bits.after = af[i]; in[i].next = 0;
+		ASSUME(!cont[i] || (bf[i] == 0 && af[i] == 0));                     /* containers are whole objects, never bit-fields */
+		ex[i].kind = EXPRCONST; ex[i].type = cont[i] ? &tcont : &tscal; in[i].expr = &ex[i];
 	}
 	for (unsigned i = 0; i + 1 < NOLD; i++) if (i + 1 < nold) { ASSUME(ebit(&in[i]) <= sbit(&in[i + 1])); }
 	struct initparser p; p.init = 0;
@@ -53,13 +59,16 @@ int main(void) {
 			lastidx = idx; kept++;
 			bool covered = sbit(new) <= sbit(it) && ebit(it) <= ebit(new);
 			CHECK(!covered, "an initializer overridden by a later one is removed");
+			bool covers = sbit(it) <= sbit(new) && ebit(new) <= ebit(it);
+			CHECK(!covers || cont[idx], "a scalar initializer that overlaps a later one (another member of a union) is removed");
 		}
 	}
 	CHECK(it == 0, "list stays finite");
 	CHECK(seen_new, "the new initializer is in the list");
 	CHECK(order_ok, "surviving initializers keep their order");
 	unsigned expect_kept = 0;
-	for (unsigned i = 0; i < NOLD; i++) if (i < nold && !(sbit(new) <= sbit(&in[i]) && ebit(&in[i]) <= ebit(new))) expect_kept++;
+	for (unsigned i = 0; i < NOLD; i++) if (i < nold && !(sbit(new) <= sbit(&in[i]) && ebit(&in[i]) <= ebit(new))
+		&& !(!cont[i] && sbit(&in[i]) <= sbit(new) && ebit(new) <= ebit(&in[i]))) expect_kept++;
 	CHECK(kept == expect_kept, "exactly the covered initializers are dropped, all others are kept");
 	CHECK(p.last == &new->next, "insertion point follows the new initializer");
 	/* sortedness of non-nested neighbours */
